@@ -7,7 +7,8 @@ RULE = ("requests are drawn from VERIF_SEED: method x dimension 1..6 x region fa
         "budget x integrand family; a case is non-trivial when the integrator ran and its bounding box / value / history "
         "comparison was evaluated; counted once per (op, method, dimension, integrand family, region class)")
 CORR_ONLY = ["'within six standard errors' (standard error estimated from repeated fixed seeds): oracle on the implementation only",
-             "Vegas integrates constants exactly / Vegas sampling and grid refinement (only its per-axis sample formula and re-initialisation are modelled)",
+             "Vegas integrates constants only to ~1e-8 relative (zero-variance first iteration), observed: known finding C14-vegas-constants; brute force and Miser to rounding",
+             "Vegas sampling and grid refinement (only its per-axis sample formula and the re-initialisation of the scalars are modelled)",
              "history independence of Vegas and brute force beyond the model (class D, bit-for-bit against a fresh process)"]
 ASSUMPTIONS = ["std::random_device::_M_getval is the only entropy source of the integrators (interposed by the harness with a fixed value)",
                "std::mt19937 / generate_canonical as in libstdc++ 12 (validated by C18)",
@@ -32,7 +33,7 @@ def region_of(rng, d, kind):
     return lo, hi
 
 
-def params_of(rng, fid, lo, hi):
+def params_of(rng, fid, lo, hi, smooth=False):
     d = len(lo)
     if fid == 0:
         return [rng.choice([2.5, -1.0, 1.0, 0.001, 1e4])]
@@ -42,6 +43,8 @@ def params_of(rng, fid, lo, hi):
     if fid == 4:
         w = min(hi[i] - lo[i] for i in range(d))
         c = [lo[i] + rng.uniform(0.2, 0.8) * (hi[i] - lo[i]) for i in range(d)]
+        if smooth:   # six-sigma groups: smooth on the scale of the whole region (no needle the budget cannot resolve)
+            return c + [max(hi[i] - lo[i] for i in range(d)) * rng.uniform(0.5, 1.0)]
         return c + [w * rng.uniform(0.3, 1.0)]
     return []
 
@@ -118,6 +121,14 @@ def generate(tier, seed, ctx):
         if method == "Monte-Carlo" and k % 13 == 0:
             n = rng.choice([1, 2, 3])
         R.append("c14.call " + call_str(method, rng.randrange(2 ** 32), lo, hi, n, fid, params_of(rng, fid, lo, hi)))
+    # --- integrands that vanish at every sample point (f == 0; a narrow peak no sample hits): memory safety, result ~ 0
+    R.append("c14.call Vegas 1 2 4 0x0p+0 0x0p+0 0x1p+0 0x1p+0 1000 0 1 0x0p+0")      # pre-fix replay of e78e51e
+    for method in METHODS:
+        for d in (2, 3, 5):
+            lo, hi = region_of(rng, d, rng.choice([0, 1]))
+            R.append("c14.call " + call_str(method, rng.randrange(2 ** 32), lo, hi, rng.choice([1000, 3000]), 0, [0.0]))
+            c = [lo[i] + 0.37 * (hi[i] - lo[i]) for i in range(d)]
+            R.append("c14.call " + call_str(method, rng.randrange(2 ** 32), lo, hi, rng.choice([1000, 3000]), 4, c + [1e-5]))
     # --- class B: six standard errors, sigma from repeated fixed seeds
     K = 12 if th else 8
     gi = 0
@@ -126,7 +137,7 @@ def generate(tier, seed, ctx):
             lo, hi = region_of(rng, d, kind)
             if fid == 2:
                 lo = [abs(v) + 0.5 for v in lo]; hi = [l + 1.0 for l in lo]
-            p = params_of(rng, fid, lo, hi)
+            p = params_of(rng, fid, lo, hi, smooth=True)
             n = rng.choice([4000, 10000]) if not th else rng.choice([10000, 40000])
             for s in range(K):
                 R.append("c14.call " + call_str(method, rng.randrange(2 ** 32), lo, hi, n, fid, p))
@@ -183,20 +194,23 @@ def inside_fail(name, mins, maxs, lo, hi):
     return None
 
 
+VEGAS_CONST_CLAUSE = "Vegas: constant integrand not integrated to rounding (weights of the zero-variance iterations)"
+
+
 def const_check(ctx, name, method, v, ex, calls):
-    """constants: to rounding for brute force and Miser; Vegas only to 1e-6 (its zero-variance first iteration
-    does not always dominate the weighted average: observed 9e-9 on the unchanged tree, recorded in the evidence)"""
+    """constants exactly to rounding for all three methods.  Vegas misses by ~1e-8 relative on the unchanged
+    tree (its zero-variance iterations do not always get the TINY weight): reported under a fixed clause
+    (known finding C14-vegas-constants) when the deviation is below 1e-6; larger deviations alarm normally."""
     rel = abs(v - ex) / abs(ex) if ex != 0 else abs(v)
+    tol = (calls + 100) * 8 * 2.0 ** -53
     if method == "Vegas":
         ctx["stats"]["vegas_constant_worst_rel_dev_1e-12"] = max(ctx["stats"].get("vegas_constant_worst_rel_dev_1e-12", 0), int(rel * 1e12))
-        if rel > (calls + 100) * 8 * 2.0 ** -53:
-            bump(ctx, "vegas_constant_not_to_rounding")
-        tol = 1e-6
-    else:
-        tol = (calls + 100) * 8 * 2.0 ** -53
-    if rel > tol:
-        return [fail("prop", name + ": constant not integrated exactly", "%r vs %r" % (v, ex))]
-    return []
+    if rel <= tol:
+        return []
+    if method == "Vegas" and rel < 1e-6:
+        bump(ctx, "vegas_constant_not_to_rounding")
+        return [fail("prop", VEGAS_CONST_CLAUSE, "%s: %r vs %r (relative %.3g)" % (name, v, ex, rel))]
+    return [fail("prop", name + ": constant integrand not integrated exactly", "%r vs %r" % (v, ex))]
 
 
 def crash_fail(name, impl):
